@@ -183,6 +183,13 @@ def impl_ctor(case):
     cls = _cls(case["cls"])
     labs = _labels(case)
     L = {k: [(labs[a], labs[b]) for a, b in case["lists"].get(k, [])] for k in KEYS}
+    form = sum(len(v) for v in L.values()) % 3
+    if form:
+        # the constructors accept whatever networkx accepts: the same edges as graph objects - for the symmetric
+        # layers also as a DiGraph that lists every pair once (form 2)
+        import networkx as nx
+        L = {"D": nx.DiGraph(L["D"]), "C": nx.DiGraph(L["C"]),
+             "U": (nx.Graph if form == 1 else nx.DiGraph)(L["U"]), "B": (nx.Graph if form == 1 else nx.DiGraph)(L["B"])}
     try:
         if FAMILY[case["cls"]] == "C":
             G = cls(incoming_directed_edges=L["D"], incoming_undirected_edges=L["U"])
@@ -194,7 +201,16 @@ def impl_ctor(case):
     for l in labs:
         if l not in G.nodes:
             G.add_node(l)
-    return 0, observe(G, labs, 0)
+    obs = observe(G, labs, 0)
+    # an undirected / bidirected edge is one edge whichever way it is asked for (the guards rely on it)
+    for k, nm in (("U", "undirected"), ("B", "bidirected")):
+        for a, b in case["lists"].get(k, []):
+            try:
+                if nm in G.edge_types and not (G.has_edge(labs[a], labs[b], nm) and G.has_edge(labs[b], labs[a], nm)):
+                    obs["asym"] = "%s edge %d-%d is visible in one orientation only" % (nm, a, b)
+            except Exception:
+                pass
+    return 0, obs
 
 
 # ----------------------------------------------------------------------------- model side
@@ -785,8 +801,44 @@ def model_trace(case, drv=None, spec=None):
     return parse_model(ans)
 
 
+def stress_bulk():
+    """a rejected bulk addition of MANY members (1560 / 780, the conflicting one last) must raise and leave the
+    graph exactly as it was, like a rejected bulk of three members does (labelled TEST; histories on three nodes
+    cannot produce a bulk this long: block-wise validation only shows here)"""
+    from pywhy_graphs import CPDAG, PAG, AugmentedPAG
+    n = 40
+    for name, cls, et in (("PAG", PAG, "circle"), ("AugmentedPAG", AugmentedPAG, "circle"), ("CPDAG", CPDAG, "undirected")):
+        try:
+            G = cls()
+            G.add_edge(0, 1, "directed")
+            if et == "circle":
+                bulk = [(i, j) for i in range(n) for j in range(n) if i != j and (i, j) != (0, 1)] + [(0, 1)]
+            else:
+                bulk = [(i, j) for i in range(n) for j in range(i + 1, n) if (i, j) != (0, 1)] + [(0, 1)]
+            before = C.snapshot(G)
+            try:
+                with C.time_limit(120):
+                    G.add_edges_from(bulk, et)
+                why = "a bulk addition whose last member puts a %s mark on the arrowhead of 0 -> 1 was accepted" % et
+            except C.CallTimeout:
+                why = None
+            except Exception:
+                after = C.snapshot(G)
+                changed = [k for k in after if k.startswith("E:") and after[k] != before.get(k)]
+                why = ("the rejected bulk addition left edges behind in %s (%d edges)" % (changed, sum(len(after[k]) for k in changed))
+                       if changed else None)
+        except Exception as e:      # construction problems are not what this test is about
+            why = None
+        yield "bulk-%s-%d-members" % (name, len(bulk)), why
+
+
 def run(ctx):
     ev, out, tier = ctx["ev"], ctx["out"], ctx["tier"]
+    for _name, _why in stress_bulk():
+        ev.count("stress:" + _name + (":ok" if _why is None else ":BAD"))
+        if _why is not None:
+            out.violation({"kind": "stress", "name": _name}, {"kind": "rejected-call-leaves-graph-unchanged", "detail": _why,
+                                                              "input": "see harness/c03.py stress_bulk()"})
     ev.rule = ("histories on PAG, AugmentedPAG, CPDAG over 3 nodes (start state written straight into the layers, so "
                "all 64/8 pair states occur): exhaustive = every pair state x every single call (add/remove of every "
                "edge type incl. 'all' and an unknown name, both orientations, orient, bulk add/remove lists with "
@@ -922,6 +974,8 @@ def judge_ctor(ctx, spec, case, raised, obs, model):
     ev.count("ctor:" + ("raised" if raised else "ok"))
     if not lists_good and not raised:
         return "violation", {"kind": "constructor-accepts-contradictory-lists", "lists": case["lists"]}
+    if not raised and obs.get("asym"):
+        return "violation", {"kind": "constructor-stores-a-symmetric-layer-one-way", "detail": obs["asym"], "lists": case["lists"]}
     if not raised:
         got = pair_states(obs, n, fam)
         if got != want:
